@@ -524,6 +524,8 @@ package quickfix
 // ---- logout / logon messages -----------------------------------------------------------------------------------
 //@ func (s *session) buildLogout [C06,C08]
 //@   stepframes
+//@   atcall SetField @bodyempty forall t Tag :: !fhas(logout.Body.FieldMap, t)
+//@   atcall SetField @bodytags arr(logout.Body.tags) == 0
 //@   requires s != nil
 //@   atcall SetField @wf msgsafe(logout)
 //@   atcall SetField @new fresh(logout) && fresh(logout.Header.tagLookup) && fresh(logout.Body.tagLookup) && fresh(logout.Trailer.tagLookup)
@@ -531,7 +533,7 @@ package quickfix
 //@   atcall SetField @type fhas(logout.Header.FieldMap, 35) ==> onebyte(fval(logout.Header.FieldMap, 35), 53)
 //@   ensures @fresh result != nil && fresh(result) && msgsafe(result) && fresh(result.Header.tagLookup) && fresh(result.Body.tagLookup) && fresh(result.Trailer.tagLookup)
 //@   ensures @type fhas(result.Header.FieldMap, 35) && onebyte(fval(result.Header.FieldMap, 35), 53)
-//@   modifies fresh H.quickfix.Message.*, fresh H.quickfix.FieldMap.*, fresh H.quickfix.tagSort.*, fresh H.sync.RWMutex.*, fresh H.sync.Mutex.*, fresh MH.quickfix.Tag.quickfix.field, fresh H.time.Time.*, fresh E.uint8, fresh H.quickfix.TagValue.*, fresh E.quickfix.Tag
+//@   freshonly H.quickfix.FieldMap.*, H.quickfix.tagSort.compare, MH.quickfix.Tag.quickfix.field
 
 //@ func (s *session) sendLogoutInReplyTo [C06,C08]
 //@   requires @sess sessfull(s)
